@@ -69,7 +69,15 @@ def _set_events(chunk):
 
     ev = []
     for (s, e, off) in chunk:
-        ev.append(["set", s, e, off, sorted(bins(s, e, fmt="gff" if off else "bed", one=False))])
+        first = bins(s, e, fmt="gff" if off else "bed", one=False)
+        if (s + e) % 3 == 0:
+            # the set handed out belongs to the caller: emptying it must not reach the answer to the next question
+            try:
+                first.clear()
+            except Exception:
+                pass
+            first = bins(s, e, fmt="gff" if off else "bed", one=False)
+        ev.append(["set", s, e, off, sorted(first)])
     return ev
 
 
@@ -147,7 +155,9 @@ def _rq_events(args):
         spans = []
         genes = []
         gaps = []
-        for k in range(rnd.randrange(1, 7)):
+        len_k = rnd.randrange(1, 7)
+        shared_guid = len_k >= 2 and rnd.random() < 0.2
+        for k in range(len_k):
             s = max(0, base + rnd.randrange(-6, 7) + rnd.choice([0, 0, -size, size, -3000, 2000]))
             e = s + rnd.choice([1, 2, 5, 1000, size - 1, size, size + 1])
             cut = rnd.randrange(s, e + 1)
@@ -164,7 +174,12 @@ def _rq_events(args):
                 txs.append(TranscriptInterval([s2], [s2 + rnd.choice([5, 900])], tx.strand))
                 gaps.append((e, s2))
                 e = txs[-1].end
-            genes.append(GeneInterval(txs))
+            # a fifth of the collections hold two genes that carry the SAME user-supplied identifier (accepted by the
+            # constructor; position queries are about positions)
+            import uuid as _uuid
+
+            gid = _uuid.UUID(int=0xC16) if (shared_guid and k in (0, len_k - 1)) else None
+            genes.append(GeneInterval(txs, guid=gid))
             spans.append([s, e])
         coll = AnnotationCollection(genes=genes, start=0, end=max([base + 4 * size] + [sp[1] for sp in spans]))
         for _q in range(6 + 3 * len(gaps)):
